@@ -191,6 +191,19 @@ PLAN = {
         quick=[enum("matrix", "TestEnum", shards=8), rapid("prop", "TestProp", 10000)],
         thorough=[enum("matrix", "TestEnum", shards=8), rapid("prop", "TestProp", 40000, shards=16)],
     ),
+    "C14": dict(
+        pkg="c14",
+        rule=("rapid-generated tables (build histories with strings, mixed items and items whose declared size disagrees with their text; alignments; skipable settings; tables that already carry errors) followed by 2..12 acts: "
+              "render in one of a small palette of styles (csv, html, json, markdown, six decorations) through a fresh wrapper or through the long-lived wrapper of that style, or set a user property (private key type) on the table, a column, a row, a cell or a header cell "
+              "- also between renders, on cells the renderers have already measured. Oracle: (1) after every act the full snapshot (row/column counts, row identity/separator/location, every cell's text, location and item identity, headers, the error list element by element, every user-set property) "
+              "equals the model; (2) every render's bytes and error-ness equal the fresh-replica reference for its style: the same content replayed on a brand-new table rendered exactly once in that style only (so interference that is present already at first use is seen). "
+              "Non-trivial: >=2 distinct styles, a repeated style, and a reused wrapper. Distinct: FNV-64 of the case."),
+        level_text="Generated-input search over render sequences with a snapshot invariant and a metamorphic fresh-replica oracle. Exploration level.",
+        level_note="The fresh-replica reference is produced by the library on an untouched table; an error common to every first render is invisible here (C03-C08 judge content). Items whose text embeds a memory address are not generated.",
+        technique="property-based testing (rapid): snapshot invariant over render histories + metamorphic fresh-replica comparison",
+        quick=[rapid("prop", "TestProp", 3000)],
+        thorough=[rapid("prop", "TestProp", 15000, shards=16)],
+    ),
     "C18": dict(
         pkg="c18",
         rule=("strings built from a width-hostile token alphabet (newlines leading/trailing/repeated, CJK wide, full-width, combining, zero-width, emoji ZWJ/flag/skin-tone sequences, "
